@@ -46,4 +46,27 @@ fn main() {
     writeln!(out, "];").unwrap();
     let dest = Path::new(&std::env::var("OUT_DIR").unwrap()).join("fonts.rs");
     std::fs::write(dest, out).unwrap();
+
+    // the named web colours: (identifier, documented (r, g, b)) from the list in core's web_colors.rs
+    let web = "/repo/core/src/pixelcolor/web_colors.rs";
+    println!("cargo:rerun-if-changed={}", web);
+    let text = std::fs::read_to_string(web).expect("cannot read web_colors.rs");
+    let mut out = String::new();
+    writeln!(out, "pub fn web_colors<T: embedded_graphics::pixelcolor::WebColors>() -> Vec<(&'static str, (u8, u8, u8), T)> {{\n    vec![").unwrap();
+    for line in text.lines() {
+        let l = line.trim();
+        if let Some(rest) = l.strip_prefix("(CSS_") {
+            // (CSS_NAME, "Name", (r, g, b)),
+            let ident = format!("CSS_{}", rest.split(',').next().unwrap().trim());
+            if let Some(i) = rest.rfind('(') {
+                let rgb: Vec<&str> = rest[i + 1..].trim_end_matches(',').trim_end_matches(')').trim_end_matches(')').split(',').map(|t| t.trim()).collect();
+                if rgb.len() == 3 && rgb.iter().all(|t| t.parse::<u8>().is_ok()) {
+                    writeln!(out, "        (\"{id}\", ({r}, {g}, {b}), T::{id}),", id = ident, r = rgb[0], g = rgb[1], b = rgb[2]).unwrap();
+                }
+            }
+        }
+    }
+    writeln!(out, "    ]\n}}").unwrap();
+    let dest = Path::new(&std::env::var("OUT_DIR").unwrap()).join("web_colors.rs");
+    std::fs::write(dest, out).unwrap();
 }
